@@ -772,7 +772,16 @@ pub fn replay(ctx: &mut Ctx, rep: &mut Report, v: &Value) {
             if c.get("cfg").is_none() {
                 c["cfg"] = json!("all");
             }
-            c05::replay(ctx, &mut scratch, &c)
+            c05::replay(ctx, &mut scratch, &c);
+            // ... and the use of whatever EncodedSequence::encode accepted (same steps as the `encode` space)
+            let text: Vec<u8> = c["text_bytes"].as_array().map(|a| a.iter().map(|x| x.as_u64().unwrap_or(0) as u8).collect()).unwrap_or_default();
+            let protein = c["alphabet"].as_str() == Some("protein");
+            if let Some(arm) = c["cfg"].as_str().and_then(cfgs::ECfg::from_name).and_then(|e| e.arm()) {
+                let used = catch(|| cfgs::with_arm(arm, || if protein { use_encoded::<Protein>(&text) } else { use_encoded::<Dna>(&text) }));
+                if let Err(msg) = used {
+                    memory_panic(&mut scratch, "C05", c["cfg"].as_str().unwrap_or("-"), &msg, || c.clone());
+                }
+            }
         }
         "C07" => c07::replay(ctx, &mut scratch, case),
         "C08" => c08::replay(ctx, &mut scratch, case),
